@@ -274,8 +274,6 @@ type World struct {
 	OnHook        func(h HookRec)
 	LogBuf        *lockedBuffer
 	WG            sync.WaitGroup
-	prevClient    *http.Client
-	prevTransport http.RoundTripper
 	prevLog       *slog.Logger
 	seq           int
 	LogLevel      slog.Level
@@ -308,11 +306,11 @@ func NewWorld(t *testing.T, opt WorldOpt) *World {
 	server.VerifHook.Store(&hook)
 
 	w.probeTr = &http.Transport{DialContext: w.dialProbe, DisableKeepAlives: true}
-	w.prevClient = http.DefaultClient
+	// (the previous default client is not remembered: it belongs to the previous world, and a chain
+	// of such references kept every world of a process alive - gigabytes in the thorough tier)
 	http.DefaultClient = &http.Client{Transport: w.probeTr}
 	// a client created without an explicit transport uses http.DefaultTransport: route that to the
 	// fake network too, so that a refactor of the prober to its own http.Client is still observed
-	w.prevTransport = http.DefaultTransport
 	http.DefaultTransport = w.probeTr
 	w.prevLog = slog.Default()
 	slog.SetDefault(slog.New(slog.NewJSONHandler(w.LogBuf, &slog.HandlerOptions{Level: slog.LevelInfo})))
